@@ -236,6 +236,21 @@ def run_case(case, rec, mon=None):
                 x = x.astype(x.dtype.newbyteorder())  # samples stored in the other byte order (big-endian PCM, say): that is the input's dtype
                 rec.count("signals_in_the_other_byte_order")
             mode = int(rng.integers(4))
+            if j % 8 == 3:
+                # the coefficient as it comes out of an array of settings: a NumPy scalar of a narrow, unsigned or single-precision
+                # type, or a 0-d array - the same number
+                tk = (j // 8) % 8
+                if tk < 4:
+                    coeff = [np.uint8, np.uint16, np.uint32, np.uint64][tk](int(rng.integers(0, 2)))
+                elif tk == 4:
+                    coeff = np.int8(int(rng.choice([-1, 0, 1])))
+                elif tk == 5:
+                    coeff = np.float32(coeff)
+                elif tk == 6:
+                    coeff = np.float16(coeff)
+                else:
+                    coeff = np.array(coeff)
+                rec.count("preemphasis_coefficients_given_as_numpy_scalars")
             p = P.Preemphasize(coeff)
             if j % 5 == 0:
                 from ..common import poke
@@ -504,6 +519,34 @@ def run_case(case, rec, mon=None):
             rec.count("torch_dither_seed_pairs")
             if not torch.equal(a, b):
                 mon.v("pytorch_dither not reproducible under torch.manual_seed", check="torch_dither_seed", op="torch_dither", shape=[n], coeff=c2)
+            if n and j % 4 == 1:
+                # the module as deployed: traced (with an example of one floating type) or scripted once, then given signals of the
+                # other floating types - the noise of the same seed, in the signal's own type
+                import warnings as _w
+
+                with _w.catch_warnings():
+                    _w.simplefilter("ignore")
+                    ex_dt = [torch.float32, torch.float64][(j // 4) % 2]
+                    try:
+                        mods = [("traced", torch.jit.trace(T.PyTorchDither(c2), (torch.zeros(max(n, 1), dtype=ex_dt),), check_trace=False)),
+                                ("scripted", torch.jit.script(T.PyTorchDither(c2)))]
+                    except Exception as e:
+                        mods = []
+                        mon.v("tracing / scripting a PyTorchDither module raised %r" % (e,), check="torch_dither_jit", op="torch_dither", shape=[n], coeff=c2)
+                    for how, m in mods:
+                        for dt in (torch.float64, torch.float32, torch.float16, torch.bfloat16):
+                            xd = torch.tensor(x).to(dt)
+                            torch.manual_seed(s)
+                            want = T.pytorch_dither(xd, c2)
+                            torch.manual_seed(s)
+                            try:
+                                got = m(xd)
+                            except Exception as e:
+                                got = e
+                            rec.count("torch_dither_jit_module_calls")
+                            if isinstance(got, Exception) or got.dtype != want.dtype or got.shape != want.shape or not torch.equal(got, want):
+                                mon.v("a %s PyTorchDither module (example type %s) on a %s signal does not add the noise pytorch_dither adds under the same seed: %s"
+                                      % (how, ex_dt, dt, repr(got)[:80] if isinstance(got, Exception) else got.dtype), check="torch_dither_jit", op="torch_dither", shape=[n], coeff=c2)
             if n:
                 # with autograd switched off (the usual way to extract features) and on a module put in eval mode
                 keep = xt.clone()
